@@ -26,6 +26,32 @@ namespace c01
         int noff = 0; for(int o = 0; o < nd; ++o) noff += int((sub >> o) & 1u);
         if(noff == 0) continue; // not constructible: SparseMatrixBanded(rows, cols, val, offsets) needs allocated arrays
         if(!only_counts(noff)) continue;
+        // apply_transposed: the generic backend has no transposed banded kernel (XABORTM "not implemented"). What the property allows:
+        // the early-outs (alpha below eps) return y, everything else must ABORT - returning with any values would be silently wrong.
+        for(int tm = 0; tm < 3; ++tm)   // 0: apply_transposed(r,x)   1: (r,x,y,alpha=1)   2: (r,x,y,alpha=0) early-out
+        {
+          if(!c.want()) continue;
+          std::vector<int> offs; for(int o = 0; o < nd; ++o) if((sub >> o) & 1u) offs.push_back(o);
+          c.desc([&]{ std::string s = std::string("banded<") + tps + "> " + cfg + " " + std::to_string(m) + "x" + std::to_string(n) + " offsets={";
+            for(int o : offs) s += std::to_string(o) + ","; return s + "} apply_transposed mode " + std::to_string(tm); });
+          DenseVector<DT, IT> val{Index(m * noff), DT(1)}; DenseVector<IT, IT> off{Index(noff)};
+          for(int k = 0; k < noff; ++k) off.elements()[k] = IT(offs[size_t(k)]);
+          M A(Index(m), Index(n), val, off);
+          V r{Index(n), DT(7)}, x{Index(m), DT(2)}, y{Index(n)}; for(int i = 0; i < n; ++i) y.elements()[i] = DT(i + 1);
+          if(tm == 2)
+          {
+            A.apply_transposed(r, x, y, DT(0));
+            bool same = true; for(int i = 0; i < n; ++i) if(!(r.elements()[i] == DT(i + 1))) same = false;
+            c.check(same, std::string("banded") + cfg + ".apply_transposed(r,x,y,0) early-out", "early-out does not return y");
+          }
+          else
+          {
+            const int st = c.run_forked([&]{ if(tm == 0) A.apply_transposed(r, x); else A.apply_transposed(r, x, y, DT(1)); });
+            c.check(st == SIGABRT, std::string("banded") + cfg + ".apply_transposed not-implemented-must-abort", [&]{ return "expected the documented abort (not implemented), got status " + std::to_string(st) + ": the call returned with some values"; });
+            c.count("required_abort_cases");
+          }
+          c.outcome(std::string("banded") + cfg + "/apply_transposed " + (tm == 2 ? "early-out" : "must-abort"));
+        }
         for(int pad = 0; pad < 2; ++pad)         // content of the padding entries of val (positions outside of the matrix)
           for(const Variant& var : variants(nd <= 7))
             for(const ApplyCase& op0 : ops)
@@ -69,7 +95,6 @@ namespace c01
               const bool early = (noff == 0) || (op.mode && fabsl(scalars[op.alpha].v) < 1e-10L);
               if(!early) c.nontrivial(verif::Hash().str("banded").str(cfg).str(tps).pod(m).pod(n).pod(sub).pod(pad).pod(op.mode).pod(op.alpha).pod(var).get());
               c.outcome(std::string("banded") + cfg + "/" + op.name() + (early ? " early-out" : ""));
-              c.excluded("banded apply_transposed (generic kernel = XABORTM not implemented)");
               c.count("applies");
             }
       }
